@@ -36,7 +36,7 @@
 #include <dirent.h>
 
 static int armed = 0;
-static int mode = 0; /* 0 none, 1 crash, 2 fault, 3 gate */
+static int mode = 0; /* bit flags: 1 crash, 2 fault, 4 gate (crash and fault may be combined) */
 static int g_me = 0, g_holding = 0, g_succeeded = 0;
 static volatile int *g_ctl = NULL;   /* [0] pos [1] n [2] diverged [3] holder [4..12) done [16..] schedule */
 static pthread_mutex_t g_mu = PTHREAD_MUTEX_INITIALIZER;
@@ -57,13 +57,14 @@ static void init(void) {
     inited = 1;
     const char *r = getenv("CACACHE_SHIM_ROOT");
     if (r) strncpy(root, r, sizeof(root) - 1);
-    const char *s = getenv("CACACHE_SHIM_SPEC");
-    if (!s) return;
+    for (int which = 0; which < 2; which++) {
+    const char *s = getenv(which ? "CACACHE_SHIM_SPEC2" : "CACACHE_SHIM_SPEC");
+    if (!s) continue;
     if (!strncmp(s, "crash", 5)) {
-        mode = 1;
+        mode |= 1;
         sscanf(s, "crash %ld %ld", &want_effects, &torn);
     } else if (!strncmp(s, "fault", 5)) {
-        mode = 2;
+        mode |= 2;
         f_suffix[0] = 0;
         sscanf(s, "fault %31s %ld %ld %ld %4095s", f_class, &f_occ, &f_errno, &f_short, f_suffix);
     } else if (!strncmp(s, "gate", 4)) {
@@ -77,9 +78,10 @@ static void init(void) {
             int fd = ropen(ctlpath, O_RDWR);
             if (fd >= 0) {
                 void *m = rmmap(NULL, 65536, PROT_READ | PROT_WRITE, MAP_SHARED, fd, 0);
-                if (m != (void *)-1) { g_ctl = (volatile int *)m; mode = 3; }
+                if (m != (void *)-1) { g_ctl = (volatile int *)m; mode = 4; }
             }
         }
+    }
     }
 }
 
@@ -125,7 +127,7 @@ static void gate_event(void) {
 }
 
 __attribute__((destructor)) static void gate_exit(void) {
-    if (mode == 3 && g_ctl) {
+    if ((mode & 4) && g_ctl) {
         pthread_mutex_lock(&g_mu);
         if (g_holding) { gate_release(); g_holding = 0; }
         __atomic_store_n(&g_ctl[4 + g_me], 1, __ATOMIC_SEQ_CST);
@@ -139,8 +141,8 @@ void cacache_shim_arm(int on) {
     effects = 0;
     seen = 0;
     fail_next_write_fd = -1;
-    if (on && mode == 3) gate_arrive();      /* parked at the start of the operation */
-    if (!on && mode == 3 && g_ctl) {         /* the operation is over: give the turn back for good */
+    if (on && (mode & 4)) gate_arrive();      /* parked at the start of the operation */
+    if (!on && (mode & 4) && g_ctl) {         /* the operation is over: give the turn back for good */
         pthread_mutex_lock(&g_mu);
         if (g_holding) { gate_release(); g_holding = 0; g_succeeded = 0; }
         __atomic_store_n(&g_ctl[4 + g_me], 1, __ATOMIC_SEQ_CST);
@@ -179,14 +181,14 @@ static void die(void) { _exit(137); }
 /* called before a mutating syscall on path p (crash mode) */
 static void pre_mutation(const char *p) {
     init();
-    if (armed && mode == 3 && in_root(p)) { g_what = p; gate_arrive(); return; }
-    if (!armed || mode != 1 || !in_root(p)) return;
+    if (armed && (mode & 4) && in_root(p)) { g_what = p; gate_arrive(); return; }
+    if (!armed || !(mode & 1) || !in_root(p)) return;
     if (effects == want_effects && torn < 0) die();
 }
 
 static void post_mutation(const char *p, int ok) {
-    if (armed && mode == 3 && in_root(p)) { if (ok) gate_event(); return; }
-    if (!armed || mode != 1 || !in_root(p)) return;
+    if (armed && (mode & 4) && in_root(p)) { if (ok) gate_event(); return; }
+    if (!armed || !(mode & 1) || !in_root(p)) return;
     if (ok) effects++;
     if (getenv("CACACHE_SHIM_DEBUG")) fprintf(stderr, "shim: effect %ld ok=%d %s\n", effects, ok, p);
 }
@@ -194,7 +196,7 @@ static void post_mutation(const char *p, int ok) {
 /* fault mode: should this call of class cls on path p fail?  returns errno or 0 */
 static int fault_here(const char *cls, const char *p) {
     init();
-    if (!armed || mode != 2 || !in_root(p)) return 0;
+    if (!armed || !(mode & 2) || !in_root(p)) return 0;
     if (strcmp(cls, f_class)) return 0;
     if (!suffix_match(p)) return 0;
     if (seen++ == f_occ) return (int)f_errno;
@@ -218,7 +220,7 @@ static int open_common(int dirfd, const char *path, int flags, mode_t m, int whi
     if (e) { errno = e; return -1; }
     int creates = 0;
     int gated_plain = 0;
-    int gate_mode = armed && mode == 3 && in_root(abs) && !(flags & O_DIRECTORY);
+    int gate_mode = armed && (mode & 4) && in_root(abs) && !(flags & O_DIRECTORY);
     if (gate_mode) { g_what = abs; gate_arrive(); gated_plain = 1; }      /* decide "creates" while holding the turn */
     if ((flags & O_CREAT) && in_root(abs)) {
         struct stat st;
@@ -255,17 +257,18 @@ ssize_t write(int fd, const void *buf, size_t n) {
     const char *p = path_of_fd(fd);
     init();
     if (p && in_root(p) && armed) {
-        if (mode == 2) {
+        if (mode & 2) {
             if (fail_next_write_fd == fd) { fail_next_write_fd = -1; errno = (int)f_errno; return -1; }
             int e = fault_here("write", p);
             if (e) {
                 if (f_short >= 0 && (size_t)f_short < n) { ssize_t r = real(fd, buf, (size_t)f_short); fail_next_write_fd = fd; return r; }
                 errno = e; return -1;
             }
-        } else if (mode == 1 && effects == want_effects) {
+        }
+        if ((mode & 1) && effects == want_effects) {
             if (torn >= 0) { if (torn > 0) real(fd, buf, (size_t)torn < n ? (size_t)torn : n); die(); }
             die();
-        } else if (mode == 3) {
+        } else if ((mode & 4)) {
             g_what = "write";
             gate_arrive();
         }
@@ -294,7 +297,15 @@ ssize_t read(int fd, void *buf, size_t n) {
 ssize_t copy_file_range(int fdin, off64_t *offin, int fdout, off64_t *offout, size_t len, unsigned int flags) {
     REAL(copy_file_range);
     const char *p = path_of_fd(fdout);
-    if (p) { int e = fault_here("write", p); if (e) { errno = e; return -1; } if (len > 0) pre_mutation(p); }
+    if (p) {
+        int e = fault_here("write", p); if (e) { errno = e; return -1; }
+        init();
+        if (armed && (mode & 1) && in_root(p) && effects == want_effects && torn >= 0 && len > 0) {
+            if (torn > 0) real(fdin, offin, fdout, offout, (size_t)torn < len ? (size_t)torn : len, flags);
+            die();
+        }
+        if (len > 0) pre_mutation(p);
+    }
     ssize_t r = real(fdin, offin, fdout, offout, len, flags);
     if (p && len > 0) post_mutation(p, r > 0);
     return r;
